@@ -125,22 +125,15 @@ def main(ctx, cases=None):
     ctx.coverage.update({"pairs_screened_vs_unscreened": len(on), "pairs_where_screening_changed_a_value": n_changed, "worst_difference_over_coefficient_product": worst})
     out = []
     if fails:
-        sws = tuple(SUBSETS)
-        if proofs_ok and not corr_bad:      # counterfactuals are only usable when model and code agree
-            pl.run_model([f[0] for f in fails[:40]], sws)
-        for r, s, d, tol in fails:
-            fid, table = None, {}
-            for sw in SUBSETS:
-                m = r.model.get(sw)
-                if m is None:
-                    continue
-                table[sw] = max([abs(pl.unhex(x) - y) for x, y in zip(m, s.vals)] + [0.0])
-            # the model's switches say nothing about the code when model and code disagree or a theorem is broken
-            if proofs_ok and not corr_bad:
-                for sw in SUBSETS:
-                    if sw in table and table[sw] <= tol:
-                        fid = "+".join(SITE[x] for x in (sw.split("+") if sw != "no-screens" else list(SITE)))
-                        break
+        # counterfactuals are run on the UNSCREENED run's request: it carries the value of every external function (erf, Dawson) any
+        # setting can need - the screened run logged none for what it skipped
+        attribution = [("+".join(SITE[x] for x in (sw.split("+") if sw != "no-screens" else list(SITE))), sw) for sw in SUBSETS]
+        items = [{"runs": (s,), "tol": tol, "defect": (lambda ref: (lambda blocks: max([abs(x - y) for x, y in zip(blocks[0], ref)] + [0.0])))(s.vals), "f": (r, s, d, tol)}
+                 for r, s, d, tol in fails]
+        pl.lazy_attribute(items, attribution, usable=bool(proofs_ok and not corr_bad))
+        for it in items:
+            r, s, d, tol = it["f"]
+            fid, table = it["fid"], it["table"]
             if fid and "type1-window" in fid.split("+") and (r.warn[0] > 0 or s.warn[0] > 0):
                 # the window changes the result because the type-1 quadrature did not converge at all (the library says so itself):
                 # screened and unscreened are both unconverged values
